@@ -91,6 +91,15 @@ fn script_resp_cut(b: &Base, cut: usize, fault: Fault, chunk: usize) -> (Vec<Ste
         }
     }
     steps.push(Step::Settle);
+    // streams still open when the fault hits: what had been routed to them, then end-of-stream — never a hang
+    for (i, (k, _)) in b.ops.iter().enumerate() {
+        if matches!(k, OpKind::Search) {
+            for _ in 0..3 {
+                steps.push(Step::Next(i));
+                steps.push(Step::Settle);
+            }
+        }
+    }
     // a later operation on the dead connection fails immediately
     steps.push(Step::Issue { kind: OpKind::Single, tmo_ms: None });
     steps.push(Step::Settle);
@@ -104,6 +113,8 @@ fn judge(out: &mut Out, label: &str, o: &Outcome, n_ops: usize, expect_driver_en
     if expect_driver_end {
         out.r(&format!("faults.driver-ends {}", label), ended, &ev);
     }
+    let (okc, whyc) = crate::lanes::routing::completeness(&o.trace);
+    out.r(&format!("faults.streams-get-what-was-routed-then-end-of-stream {}", label), okc, &format!("{} ; {}", whyc, ev));
     // every issued operation's future resolved; no stream left waiting
     let done: std::collections::HashSet<String> = o.trace.iter().filter(|t| t.starts_with("cli done ")).map(|t| t.split(' ').nth(2).unwrap().to_string()).collect();
     let issued = o.trace.iter().filter(|t| t.starts_with("cli issue ")).count();
@@ -210,6 +221,65 @@ pub fn run(thorough: bool, mut rng: Rng, mut out: Out) {
         out.r(&format!("faults.non-result-frame-is-an-error-not-a-panic {}", label), first == "cli done 0 decode", first);
         let others_ok = dones.iter().filter(|t| t.starts_with("cli done 1 frame:") || t.starts_with("cli done 2 frame:")).count() == 2;
         out.r(&format!("faults.connection-serves-the-others {}", label), others_ok, &format!("{:?}", dones));
+    }
+    // corpus (C11, driver level): under the ID of a running SEARCH, a protocolOp that is neither an entry /
+    // reference / intermediate response nor a well-formed SearchResultDone ends the connection with an error that
+    // every pending operation observes (model: routeSearch / classify = none; C11_bad_search_frame_ends_connection)
+    for (bad_op, good) in [(11u64, true), (1, true), (0, false), (26, false), (3, true), (5, false), (24, true)] {
+        for with_item in [false, true] {
+            let mut sc = vec![
+                Step::Issue { kind: OpKind::Search, tmo_ms: None },
+                Step::Issue { kind: OpKind::Single, tmo_ms: None },
+                Step::Issue { kind: OpKind::Search, tmo_ms: Some(5000) },
+                Step::Settle,
+            ];
+            if with_item {
+                sc.push(Step::Send { id: 1, op: 4, good: false });
+                sc.push(Step::Send { id: 3, op: 19, good: false });
+                sc.push(Step::Settle);
+            }
+            sc.push(Step::Next(0));
+            sc.push(Step::Settle);
+            sc.push(Step::Send { id: 1, op: bad_op, good });
+            sc.push(Step::Settle);
+            for _ in 0..2 {
+                sc.push(Step::Next(0));
+                sc.push(Step::Next(2));
+                sc.push(Step::Settle);
+            }
+            sc.push(Step::Issue { kind: OpKind::Single, tmo_ms: None });
+            sc.push(Step::Settle);
+            let o = run_script(&sc);
+            let label = format!("corpus bad frame (op {} good={}) under a search's ID, items-before={}", bad_op, good, with_item);
+            out.case(&label, true);
+            out.stat("fault.BadFrameForSearch");
+            judge(&mut out, &label, &o, 4, true);
+            out.r(&format!("faults.bad-search-frame-ends-the-connection-with-an-error {}", label), o.trace.iter().any(|t| t == "drv result err"), &to_model_events(&o.trace));
+        }
+    }
+    // corpus (C04): Unbind, the server does NOT close, and another operation is issued: it fails at once
+    // (the sink is closed), nobody hangs
+    for pending_before in [false, true] {
+        let mut sc = vec![];
+        if pending_before {
+            sc.push(Step::Issue { kind: OpKind::Single, tmo_ms: None });
+            sc.push(Step::Settle);
+        }
+        sc.push(Step::Issue { kind: OpKind::Unbind, tmo_ms: None });
+        sc.push(Step::Settle);
+        sc.push(Step::Issue { kind: OpKind::Single, tmo_ms: None });
+        sc.push(Step::Settle);
+        sc.push(Step::Issue { kind: OpKind::Search, tmo_ms: None });
+        sc.push(Step::Settle);
+        let o = run_script(&sc);
+        let label = format!("corpus unbind without server close, then more operations; pending-before={}", pending_before);
+        out.case(&label, true);
+        out.stat("fault.UnbindNoClose");
+        judge(&mut out, &label, &o, 3 + pending_before as usize, false);
+        let n0 = if pending_before { 2 } else { 1 };
+        let later_failed = (n0..n0 + 2).all(|i| o.trace.iter().any(|t| t.starts_with(&format!("cli done {} ", i)) && !t.contains("frame:") && !t.ends_with(" ack")));
+        out.r(&format!("faults.operations-after-unbind-fail-at-once {}", label), later_failed, &to_model_events(&o.trace));
+        out.r(&format!("faults.unbind-closes-transport {}", label), o.net.is_shutdown(), "write side not shut down");
     }
     let nbase = if thorough { 240 } else { 20 };
     for bi in 0..nbase {
